@@ -46,6 +46,7 @@ let int_of_z (x : z) : int = match x with Z0 -> 0 | Zpos p -> int_of_pos p | Zne
 (* generic int-stream entry points: "run <name> <int> ..." -> ints *)
 let runners : (string * (z list -> z list)) list = [
   ("queue", run_queue);
+  ("header", run_header);
 ]
 
 (* ---------- dispatch ---------- *)
